@@ -32,8 +32,10 @@ NODE_MENUS = (
     ("HNode", "HAny", "HMix"),
     ("HNode", "HSym"),
     ("HNode", "HMix", "HSym", "HSymMix"),
+    ("HNodeEq",),
+    ("HNodeEq", "HNode"),
 )
-LIGHT_MENUS = (("HLight",), ("HLightDict",), ("HLight", "HLightDict"))
+LIGHT_MENUS = (("HLight",), ("HLightDict",), ("HLight", "HLightDict"), ("HLightEq",), ("HLightEq", "HLight"))
 EXC_ALL = ("SimFault", "SimRuntime", "SimCancel")
 EXC_EXCEPTION = ("SimFault", "SimRuntime")
 STRUCT_OPS = ("parent", "children", "del", "new")
@@ -260,7 +262,7 @@ def gen_op(rng, model, cfg, step):
             op["c"] = wchoice(rng, (("list", 5), ("tuple", 2), ("gen", 2)))
         elif r < 0.55:
             op["xs"] = {"noniter": rng.choice(("int", "none", "zero"))}
-        if cls in ("HNode", "HAny", "HMix", "HSym") and rng.random() < 0.3:
+        if cls in ("HNode", "HNodeEq", "HAny", "HMix", "HSym") and rng.random() < 0.3:
             op["attrs"] = {"foo": step}
     prof = cfg["profile"]
     if cfg.get("persist_run"):
